@@ -283,7 +283,23 @@ def run_op(store, op, mk=None):
         elif k == 'copy':
             store.append(copy.deepcopy(store[op['t']]))
         elif k == 'set':
-            setattr(store[op['t']], op['a'], cv(op['v']))
+            val = cv(op['v'])
+            if op.get('via') == 'getter' and mk is None:      # (on TRACED objects the caller's own edit of a cached list would be logged as an event of the setter)
+                # the idiom `pts = obj.ctrlpts; pts[i][k] = x; obj.ctrlpts = pts`: the list the getter handed out, edited in place
+                # to the new values, is assigned back (falls back to a plain assignment when the shapes of the lists differ)
+                cur = getattr(store[op['t']], op['a'])
+                same = isinstance(cur, list) and len(cur) == len(val) and all(
+                    (isinstance(a, list) and isinstance(b, (list, tuple)) and len(a) == len(b)) or not isinstance(b, (list, tuple)) and not isinstance(a, list)
+                    for a, b in zip(cur, val))
+                if same:
+                    for i_, b in enumerate(val):
+                        if isinstance(b, (list, tuple)):
+                            for j_, x_ in enumerate(b):
+                                cur[i_][j_] = x_
+                        else:
+                            cur[i_] = b
+                    val = cur
+            setattr(store[op['t']], op['a'], val)
         elif k == 'get':
             getattr(store[op['t']], op['a'])
         elif k == 'call':
@@ -314,7 +330,7 @@ def show_op(op):
     if k == 'copy':
         return "o? = deepcopy(%s)" % t
     if k == 'set':
-        return "%s.%s = %s" % (t, op['a'], sv(op['v']))
+        return "%s.%s = %s%s" % (t, op['a'], sv(op['v']), " (the getter's list edited in place and assigned back)" if op.get('via') == 'getter' else '')
     if k == 'get':
         return "read %s.%s" % (t, op['a'])
     if k == 'call':
@@ -874,6 +890,8 @@ class Gen(object):
         if ch == 'knotvector_all':
             return [dict(k='set', t=t, a='knotvector', v=[rknots(rng, deg[j], sizes[j]) for j in range(pd)])]
         if ch == 'ctrlpts':
+            if rng.random() < .4:      # read, edit the list in place, assign it back (the read is its own step: it may fill a cache)
+                return [dict(k='get', t=t, a='ctrlpts'), dict(k='set', t=t, a='ctrlpts', v=[rpoint(rng, dim) for _ in range(ntot)], via='getter')]
             return [dict(k='set', t=t, a='ctrlpts', v=[rpoint(rng, dim) for _ in range(ntot)])]
         if ch == 'ctrlpts_n' and pd == 1:
             n2 = rng.randint(deg[0] + 1, deg[0] + 3)
@@ -892,6 +910,8 @@ class Gen(object):
                 return [dict(k='set', t=t, a='ctrlptsw', v=pts)]
             return [dict(k='call', t=t, a='set_ctrlpts', args=[pts] + (sizes if pd > 1 else []))]
         if ch == 'weights':
+            if rng.random() < .4:
+                return [dict(k='get', t=t, a='weights'), dict(k='set', t=t, a='weights', v=rweights(rng, ntot), via='getter')]
             return [dict(k='set', t=t, a='weights', v=rweights(rng, ntot))]
         if ch == 'ctrlpts2d':
             pts = [rpoint(rng, dim + (1 if kind[0] == 'N' else 0)) for _ in range(ntot)]
